@@ -73,6 +73,7 @@ type ldItem struct {
 	Kind  string   `json:"kind"`
 	Name  ldName   `json:"name"`
 	Items []ldItem `json:"items"` // t = "block"
+	Names []ldName `json:"names"` // t = "loop"
 }
 
 type ldFile struct {
@@ -105,6 +106,20 @@ func itemsText(items []ldItem, root string) (src string, lazyNames map[string]st
 	for i, it := range items {
 		if it.T == "text" {
 			b.WriteString(it.S)
+			continue
+		}
+		if it.T == "loop" {
+			v := fmt.Sprintf("lazyseq%d", i)
+			var ns []string
+			for _, n := range it.Names {
+				ns = append(ns, nameText(n, root))
+			}
+			lazyNames[v] = strings.Join(ns, "\x00")
+			ifx := ""
+			if it.Kind == "lazy_if" {
+				ifx = " if_exists"
+			}
+			fmt.Fprintf(&b, "{%% for lz in %s %%}[{%% include lz%s %%}]{%% endfor %%}", v, ifx)
 			continue
 		}
 		if it.T == "block" {
@@ -205,7 +220,11 @@ func cmdC11Replay(args []string) {
 				for _, f := range files {
 					src, lazy := itemsText(f.Items, root)
 					for k, n := range lazy {
-						ctx[k] = n
+						if strings.HasPrefix(k, "lazyseq") {
+							ctx[k] = strings.Split(n, "\x00")
+						} else {
+							ctx[k] = n
+						}
 					}
 					full := src
 					if usesImport && (importTargets[root+"/"+strings.Join(f.Path, "/")] || importTargets[strings.Join(f.Path, "/")]) {
